@@ -79,15 +79,61 @@ class KaniUnit:
     def full_name(self, harness):
         return self.modpath + "::" + harness
 
-    def module_text(self, extra=""):
+    def module_text(self, extra="", native_only=False):
+        body = strip_proof_items(self.body) if native_only else self.body
         return ("\n\n#[cfg(kani)]\n#[allow(warnings)]\nmod %s {\n    use super::*;\n%s\n%s\n}\n"
-                % (self.modname, self.body, extra))
+                % (self.modname, body, extra))
+
+
+def strip_proof_items(body):
+    """Remove every fn item that carries a #[kani::proof...] attribute (with its attribute lines). Used only for the
+    native bounded boxes when the full unit no longer compiles against a changed tree (a harness names a function whose
+    signature changed): the boxes exercise the public behaviour and must not be lost with the harnesses."""
+    from .rustscan import code_mask, match_close
+    mask = code_mask(body)
+    out = []
+    pos = 0
+    for m in re.finditer(r"#\[kani::proof", body):
+        if not mask[m.start()] or m.start() < pos:
+            continue
+        # start: beginning of the contiguous block of attribute lines this attribute belongs to
+        ls = body.rfind("\n", 0, m.start()) + 1
+        start = ls
+        while start > 0:
+            pls = body.rfind("\n", 0, start - 1) + 1
+            if body[pls:start - 1].strip().startswith("#["):
+                start = pls
+            else:
+                break
+        # end: closing brace of the fn body that follows
+        fm = re.compile(r"\bfn\s+\w+").search(body, m.end())
+        if not fm:
+            continue
+        j = fm.end()
+        depth = 0
+        while j < len(body):
+            if mask[j]:
+                if body[j] in "([":
+                    depth += 1
+                elif body[j] in ")]":
+                    depth -= 1
+                elif body[j] == "{" and depth == 0:
+                    break
+            j += 1
+        if j >= len(body):
+            continue
+        end = match_close(body, mask, j) + 1
+        out.append(body[pos:start])
+        out.append("    // (harness removed for the native-only build)\n")
+        pos = end
+    out.append(body[pos:])
+    return "".join(out)
 
 
 FN_RE_T = r"^(?P<indent>[ \t]*)(?:pub(?:\([a-z: ]+\))?\s+)?(?:const\s+)?(?:unsafe\s+)?fn\s+%s\b"
 
 
-def inject(crate_dir, units, extra_by_unit=None):
+def inject(crate_dir, units, extra_by_unit=None, native_only=False):
     """Append unit modules / insert attribute lines. Returns per-file integrity records."""
     extra_by_unit = extra_by_unit or {}
     records = {}
@@ -106,7 +152,7 @@ def inject(crate_dir, units, extra_by_unit=None):
                "injected_modules": [], "inserted_attribute_lines": 0}
         text = read(p)
         for u in us:
-            for fn, lines in u.attrs:
+            for fn, lines in (() if native_only else u.attrs):
                 rx = re.compile(FN_RE_T % re.escape(fn), re.M)
                 ms = list(rx.finditer(text))
                 if len(ms) != 1:
@@ -115,7 +161,9 @@ def inject(crate_dir, units, extra_by_unit=None):
                 ins = "".join("%s%s\n" % (m.group("indent"), l) for l in lines)
                 text = text[:m.start()] + ins + text[m.start():]
                 rec["inserted_attribute_lines"] += len(lines)
-            text += u.module_text(extra_by_unit.get(u.path, ""))
+            if native_only and u.attrs:
+                pass
+            text += u.module_text(extra_by_unit.get(u.path, ""), native_only)
             rec["injected_modules"].append(u.modname)
             crate_attrs.extend(u.crate_attrs)
         write(p, text)
